@@ -258,17 +258,31 @@ def h_fetch_app(eng, case):
 
     got = []
     res = {}
+    validator = None
+    vcalls = []
+    if case.get('validator'):
+        # the caller's validator is a callable OBJECT (a trust-anchor set: empty, hence falsy, rejecting everything)
+        class AnchorSet:
+            def __len__(self):
+                return 0
+
+            async def __call__(self, name, sig):
+                vcalls.append(1)
+                return False
+        validator = AnchorSet()
 
     async def main(loop):
         ml = asyncio.ensure_future(app.main_loop())
         await asyncio.sleep(0)
         fw = asyncio.ensure_future(forwarder())
         try:
-            async for c in segment_fetcher(app, '/obj', timeout=100, retry_times=retry):
+            async for c in segment_fetcher(app, '/obj', timeout=100, retry_times=retry, validator=validator):
                 got.append(bytes(c))
             res['end'] = ('done',)
         except types.InterestTimeout:
             res['end'] = ('timeout',)
+        except types.ValidationFailure:
+            res['end'] = ('vfail',)
         except types.InterestNack as e:
             res['end'] = ('nack', e.reason)
         except Exception as e:
@@ -289,6 +303,9 @@ def h_fetch_app(eng, case):
     seg = 0
     tries = 0
     for ans in script:
+        if ans[0] == 'data' and validator is not None:
+            exp_end = ('vfail',)               # the caller's validator rejects every packet
+            break
         if ans[0] == 'data':
             exp_got.append(b'seg%d' % seg)
             if seg == N - 1:
@@ -342,4 +359,5 @@ def cases(tier, seed):
                         cs.append(('fetch', {'N': N, 'retry': retry, 'marker': m, 'fail': fk}, {'weight': w * 3}))
     for N, retry in ((1, 1), (2, 2), (3, 1)) if tier == 'quick' else ((1, 1), (2, 2), (3, 1), (3, 2), (2, 3)):
         cs.append(('fetch_app', {'N': N, 'retry': retry}, {'weight': 3 ** (N + retry), 'split_depth': 3}))
+    cs.append(('fetch_app', {'N': 2, 'retry': 1, 'validator': 'rejecting-object'}, {'weight': 9}))
     return cs
